@@ -93,7 +93,7 @@ def make_hooks(funcs, items, logger, fresh_loads=False):
                     largs.append(RefV(rec))
                 else:
                     largs.append(ex.fresh_lazy(t, "logger." + p))
-            return ("inline", logger, largs)
+            return ("inline-discard", logger, largs)
         if re.fullmatch(r"(log::)?Record(<.*>)?::level", c) or c == "Record::level":
             r = deref_val(ex, st, args[0])
             if isinstance(r, Lazy) and r.tags.get("level") is not None:
